@@ -140,10 +140,11 @@ def c02(ctx):
     _seq_stage(ctx, "C02", n)
     ctx.rule = ("scan / scan_from / scan_range calls issued between the operations of C01-style histories, each compared entry by entry (key and value bytes, "
                 "order, count, no call after the visitor halted) with the slice of the reference map; bounds: stored keys, +-1 neighbours, 0/max, keys "
-                "that leave the tree at a random depth below the smallest / above the largest / in a gap of the siblings there; both directions; halting "
+                "that leave the tree at a random depth below the smallest / above the largest / in a gap of the siblings there; for byte-string keys a quarter of the bounds "
+                "is then cut to a proper prefix (down to the empty key) or extended by 1-3 bytes, so that bounds and stored keys differ in length; both directions; halting "
                 "after j visits (every j for results of <= 5 entries); byte-string scan_range repeated with the two bound buffers in both address "
                 "orders. A scan is distinct+non-trivial when (content hash, API, bounds, direction, halt position, address order) is new and the bound is not a stored key or the expected result is non-empty")
-    ctx.floors = ctx.floors + [("falloff_bounds", 1000), ("address_order_scans", 1000)]
+    ctx.floors = ctx.floors + [("falloff_bounds", 1000), ("address_order_scans", 1000), ("prefix_bounds", 1000), ("extension_bounds", 1000)]
 
 
 @prop("C10")
